@@ -6,6 +6,9 @@ package sign
 // Output gate (C01): the session's result is produced only for a signature that the textbook ECDSA equation
 // (contract of ecdsa.Signature.Verify) accepts for exactly this session's public key and message.
 //@ func (*round5).Finalize
+// (C04, C05) the round handed to the handler is one the session announced: its number is within the final round
+// number, so the handler holds a queue for it and waits for every party before finalizing it
+//@   ensures[C04,C05] result1 == nil ==> result0.Number() <= old(r.Helper.info.FinalRoundNumber)
 //@   requires r != nil && r.round4 != nil && r.round3 != nil && r.round2 != nil && r.round1 != nil && r.Helper != nil
 //@   requires r.PublicKey != nil && r.BigR != nil
 //@   assert_at[C01] ResultRound "return r.ResultRound(signature)": ecdsa_valid(signature.R, signature.S, r.PublicKey, r.Message)
@@ -28,11 +31,13 @@ package sign
 //@   loop 1: invariant PublicKey != nil && fresh(ECDSA) && fresh(Paillier) && fresh(Pedersen)
 // (induction on the session object) on success the next round starts from the state invariant its methods assume
 //@   ensures result1 == nil ==> (typeis(result0, *round1) && sg1ok(result0.(*round1)))
+// (C04, C05) the announced final round number covers every round the session can reach, the identifiable-abort rounds included
+//@   ensures[C04,C05] result1 == nil ==> result0.(*round1).Helper.info.FinalRoundNumber >= 5
 
 // ---- message handlers of the signing rounds (C05, C03)
 // per-party public data is complete for every signer (established by the start function from a well-formed config)
 //@ pred sgparty(r *round1, j party.ID) := pkok(r.Paillier[j]) && pkvals(r.Paillier[j]) && pkbig(r.Paillier[j]) && pedok(r.Pedersen[j]) && r.ECDSA[j] != nil
-//@ pred sg1ok(r *round1) := r != nil && r.Helper != nil && r.Helper.hash != nil && r.Helper.hash.h != nil && r.Helper.info.Group != nil && !held(r.Helper.mtx) && r.Paillier != nil && r.Pedersen != nil && r.ECDSA != nil && r.SecretPaillier != nil
+//@ pred sg1ok(r *round1) := r != nil && r.Helper != nil && r.Helper.info.FinalRoundNumber >= 5 && r.Helper.hash != nil && r.Helper.hash.h != nil && r.Helper.info.Group != nil && !held(r.Helper.mtx) && r.Paillier != nil && r.Pedersen != nil && r.ECDSA != nil && r.SecretPaillier != nil
 //@ pred sg2ok(r *round2) := r != nil && sg1ok(r.round1) && r.K != nil && r.G != nil && r.BigGammaShare != nil && r.K != r.G
 //@ pred sg3ok(r *round3) := r != nil && sg2ok(r.round2) && r.DeltaShareAlpha != nil && r.ChiShareAlpha != nil
 
@@ -113,6 +118,9 @@ package sign
 // through) nothing panics; the masks sampled by the provers and by the MtA stay inside Paillier's plaintext range.
 //@ pred sgall(r *round1) := forall(j, party.ID, inslice(r.Helper.partyIDs, j) ==> sgparty(r, j)) && each(r.Helper.otherPartyIDs, x, sgparty(r, x)) && sgparty(r, r.Helper.info.SelfID) && inslice(r.Helper.partyIDs, r.Helper.info.SelfID) && forall(x, party.ID, inslice(r.Helper.otherPartyIDs, x) ==> inslice(r.Helper.partyIDs, x)) && paillier.skwf(r.SecretPaillier) && r.SecretECDSA != nil
 //@ func (*round1).Finalize
+// (C04, C05) the round handed to the handler is one the session announced: its number is within the final round
+// number, so the handler holds a queue for it and waits for every party before finalizing it
+//@   ensures[C04,C05] result1 == nil ==> result0.Number() <= old(r.Helper.info.FinalRoundNumber)
 //@   nopanic[C05]
 //@   use bits
 //@   requires sg1ok(r) && sgall(r) && out != nil && !closed(out)
@@ -124,6 +132,9 @@ package sign
 //@   ensures typeis(result0, *round.Abort) ==> result0.(*round.Abort).Err != nil
 //@   ensures typeis(result0, *round.Output) ==> result0.(*round.Output).Result != nil
 //@ func (*round2).Finalize
+// (C04, C05) the round handed to the handler is one the session announced: its number is within the final round
+// number, so the handler holds a queue for it and waits for every party before finalizing it
+//@   ensures[C04,C05] result1 == nil ==> result0.Number() <= old(r.Helper.info.FinalRoundNumber)
 //@   nopanic[C05]
 //@   use bits
 //@   requires sg2ok(r) && sgall(r.round1) && out != nil && !closed(out) && r.GammaShare != nil && r.GNonce != nil
@@ -136,6 +147,9 @@ package sign
 //@   ensures typeis(result0, *round.Abort) ==> result0.(*round.Abort).Err != nil
 //@   ensures typeis(result0, *round.Output) ==> result0.(*round.Output).Result != nil
 //@ func (*round3).Finalize
+// (C04, C05) the round handed to the handler is one the session announced: its number is within the final round
+// number, so the handler holds a queue for it and waits for every party before finalizing it
+//@   ensures[C04,C05] result1 == nil ==> result0.Number() <= old(r.Helper.info.FinalRoundNumber)
 //@   nopanic[C05]
 //@   use bits
 //@   requires sg3ok(r) && sgall(r.round1) && out != nil && !closed(out) && r.GammaShare != nil && r.KShare != nil && r.KNonce != nil && r.DeltaShareBeta != nil && r.ChiShareBeta != nil
@@ -152,6 +166,9 @@ package sign
 //@   ensures typeis(result0, *round.Abort) ==> result0.(*round.Abort).Err != nil
 //@   ensures typeis(result0, *round.Output) ==> result0.(*round.Output).Result != nil
 //@ func (*round4).Finalize
+// (C04, C05) the round handed to the handler is one the session announced: its number is within the final round
+// number, so the handler holds a queue for it and waits for every party before finalizing it
+//@   ensures[C04,C05] result1 == nil ==> result0.Number() <= old(r.Helper.info.FinalRoundNumber)
 //@   nopanic[C05]
 //@   requires sg4ok(r) && out != nil && !closed(out) && r.KShare != nil && r.ChiShare != nil && len(r.Message) > 0
 //@   requires forall(j, party.ID, inslice(r.Helper.partyIDs, j) ==> (r.DeltaShares[j] != nil && r.BigDeltaShares[j] != nil))
